@@ -260,11 +260,6 @@ def problems(env, cfg, tier):
     def req(s, a):
         return {**inv(env, s, order=False), "in_spec": E.in_spec(env, a)}
 
-    def with_abstract_volume(f):
-        def g(*args):
-            with abstract_volume():
-                return f(*args)
-        return g
 
     ORDER = ("sorted_ems_indexes", "action_mask")  # frame fields whose proof needs the volume order: problem `order` below
 
@@ -318,17 +313,22 @@ def problems(env, cfg, tier):
         for k, v in spec_obs(env, s2).items():
             out["C12.obs." + k] = obs_field(o, k) == v
         for k, v in inv(env, s2, order=False).items():
-            if k not in feasible(env, s):  # the geometric part is the dedicated (expensive) problem below
+            if k not in feasible(env, s) and k not in sorted_spec(env, s):  # geometry: problem `geo`; sorted_*: problem `order`
                 out["C06.inv_" + k] = (last | v) if k == "not_terminal" else v
-        out.update(K.spec_bounds(env.observation_spec, o, "C01.step_obs_bounds"))
+        # C01 with a cut: (lemma) every slot of the new EMS buffer is within the container lengths -- proved here as its own
+        # obligations -- and (lemma => bound of the observed, selected and normalised, EMS coordinate).  The direct clause needs
+        # the geometric argument inside the sort/gather/division query and takes 20-60 s per element.
+        lemma = ems_buffer_in_bounds(env, s2)
+        out["C01.lemma_new_ems_buffer_within_container_lengths"] = lemma
+        for k, v in K.spec_bounds(env.observation_spec, o, "C01.step_obs_bounds").items():
+            out[k] = (~jnp.all(lemma) | v) if ".ems." in k else v
         return out
 
     def s2_util_step(s, s2, ok, chosen):
         gain = jnp.sum(jnp.where(ok & chosen, item_volumes(s), 0.0)) / container_volume(s)
         return utilisation(s2) == utilisation(s) + gain
 
-    # (the volumes of the EMS buffer only matter through their ORDER here: contract boundary on Space.volume, see `order`)
-    step = dict(title=f"BinPack.step@{cfg}", args=(state, a), requires=req, ensures=with_abstract_volume(ens), workers=6, timeout=300,
+    step = dict(title=f"BinPack.step@{cfg}", args=(state, a), requires=req, ensures=ens, workers=6, timeout=300,
                 props=("C01", "C04", "C05", "C06", "C08", "C11", "C12"),
                 targets=[T.step, T._make_observation_and_extras, T._get_set_of_largest_ems, T._get_action_mask, T._normalize_ems_and_items,
                          T._pack_item, T._update_ems, type(env.reward_fn).__call__])
@@ -365,13 +365,13 @@ def problems(env, cfg, tier):
 
     order_note = ("Space.volume is a contract boundary here (uninterpreted function of the coordinates); its own contract is "
                   "C12.volume_is_the_product_of_the_lengths")
-    order = dict(title=f"BinPack.step(volume order)@{cfg}", args=(state, a), requires=order_req, ensures=order_ens_for(False), workers=6,
+    order = dict(title=f"BinPack.step(volume order)@{cfg}", args=(state, a), requires=order_req, ensures=order_ens_for(False), workers=1,
                  timeout=300, fmul_uf=True, props=("C06", "C12"), note=order_note,
                  targets=[T.step, T._make_observation_and_extras, T._get_set_of_largest_ems, Space.volume])
     # (fmul_uf off: the engine's uninterpreted product is only syntactically commutative, which gives spurious
     #  counterexamples when the same product is formed over the old and over the new state)
     order_frame = dict(title=f"BinPack.step(volume order, illegal action)@{cfg}", args=(state, a), requires=order_req, ensures=order_ens_for(True),
-                       workers=6, timeout=300, props=("C05",), note=order_note,
+                       workers=1, timeout=300, props=("C05",), note=order_note,
                        targets=[T.step, T._make_observation_and_extras, T._get_set_of_largest_ems, Space.volume])
 
     # C06 proper: the geometric invariant, one obligation per conjunct (the monolithic query is `unknown` after 600 s).
